@@ -1,0 +1,22 @@
+//go:build verif
+
+package build
+
+import "github.com/gopherjs/gopherjs/build/cache"
+
+// VerifSetBuildCache installs the given build cache into the session.
+//
+// The default session cache is compiled out (see disableDefaultCache in
+// NewSession), so the verification harness uses this to run LoadPackages with
+// a real *cache.BuildCache, typically wrapped into a recorder that counts the
+// Store and Load calls. Passing nil disables caching again.
+//
+// It must be called before the first package is loaded.
+func (s *Session) VerifSetBuildCache(c cache.Cache) {
+	s.buildCache = c
+}
+
+// VerifBuildCache returns the cache currently installed in the session.
+func (s *Session) VerifBuildCache() cache.Cache {
+	return s.buildCache
+}
